@@ -190,7 +190,7 @@ theorem delay_step (k : Nat) (X : List Nat) (c z a f : Nat) (hz : z ≤ k) (hcz 
     by_cases ha : w.length = 0
     · have hwn : w = [] := List.length_eq_zero_iff.mp ha
       simp only [ha, beq_self_eq_true, Bool.and_self, if_true, List.getD_cons_zero, Nat.add_zero]
-      refine ⟨z + nz, by omega, by omega, by congr 1; omega, ?_, ?_, by omega, by simp⟩
+      refine ⟨z + nz, by omega, by omega, by congr 1; omega, ?_, ?_, by omega, by split <;> simp⟩
       · intro hc; have := hcz hc; omega
       · rcases Nat.eq_zero_or_pos c with rfl | hc
         · simp
